@@ -444,6 +444,157 @@ def r22_closure(ctx):
 # R23 comparison derivation (Guarded)
 # ---------------------------------------------------------------------------
 
+def _cmp_table(c):
+    """{(d, s): set of returned values} for Guarded.__cmp__, d in lt/ge (|a-b| vs tolerance), s in < = > (a vs b); or (None, reason)"""
+    self_n = c.params[0] if c.params else 'self'
+    oth_n = c.params[1] if len(c.params) > 1 else 'other'
+
+    def term(e, env):
+        if isinstance(e, ast.Name) and e.id in env:
+            return env[e.id]
+        if isinstance(e, ast.Attribute) and e.attr == '_value' and isinstance(e.value, ast.Name):
+            if e.value.id == self_n:
+                return 'A'
+            if e.value.id == oth_n:
+                return 'B'
+        if isinstance(e, ast.Attribute) and e.attr.endswith('__geps'):
+            return 'G'
+        if isinstance(e, ast.Constant) and isinstance(e.value, int) and not isinstance(e.value, bool):
+            return ('k', e.value)
+        if isinstance(e, ast.UnaryOp) and isinstance(e.op, ast.USub):
+            t = term(e.operand, env)
+            if isinstance(t, tuple) and t[0] == 'k':
+                return ('k', -t[1])
+        if isinstance(e, ast.BinOp) and isinstance(e.op, ast.Sub):
+            l, r = term(e.left, env), term(e.right, env)
+            if (l, r) == ('A', 'B'):
+                return 'A-B'
+            if (l, r) == ('B', 'A'):
+                return 'B-A'
+        if isinstance(e, ast.Call) and isinstance(e.func, ast.Name) and e.func.id == 'abs' and len(e.args) == 1:
+            if term(e.args[0], env) in ('A-B', 'B-A'):
+                return 'D'
+        return None
+
+    def cmp2(l, op, r, d, s):
+        flip = {ast.Lt: ast.Gt, ast.Gt: ast.Lt, ast.LtE: ast.GtE, ast.GtE: ast.LtE, ast.Eq: ast.Eq, ast.NotEq: ast.NotEq}
+        def by_sign(sign, op):      # sign of (x - y) in '<','=','>'
+            return {ast.Lt: sign == '<', ast.Gt: sign == '>', ast.LtE: sign in '<=', ast.GtE: sign in '>=', ast.Eq: sign == '=', ast.NotEq: sign != '='}.get(op)
+        neg = {'<': '>', '>': '<', '=': '='}
+        if (l, r) == ('A', 'B'):
+            return by_sign(s, op)
+        if (l, r) == ('B', 'A'):
+            return by_sign(neg[s], op)
+        if (l, r) == ('D', 'G'):
+            return by_sign('<' if d == 'lt' else None, op) if d == 'lt' else {ast.Lt: False, ast.GtE: True}.get(op)
+        if (l, r) == ('G', 'D'):
+            return cmp2(r, flip.get(op), l, d, s) if op in flip else None
+        if l in ('A-B', 'B-A') and r == ('k', 0):
+            return by_sign(s if l == 'A-B' else neg[s], op)
+        if r in ('A-B', 'B-A') and l == ('k', 0) and op in flip:
+            return cmp2(r, flip[op], l, d, s)
+        if l == 'D' and r == ('k', 0):
+            return by_sign('=' if s == '=' else '>', op)
+        if l in ('A-B', 'B-A') and r == 'G':
+            big = d == 'ge' and (s if l == 'A-B' else neg[s]) == '>'        # the signed difference reaches the tolerance
+            return {ast.GtE: big, ast.Lt: not big, ast.Gt: None if big else False, ast.LtE: None if big else True}.get(op)
+        if r in ('A-B', 'B-A') and l == 'G' and op in flip:
+            return cmp2(r, flip[op], l, d, s)
+        return None
+
+    def truth(e, env, d, s):
+        if isinstance(e, ast.Compare):
+            vals = [term(x, env) for x in [e.left] + list(e.comparators)]
+            res = True
+            for k, op in enumerate(e.ops):
+                t = cmp2(vals[k], type(op), vals[k + 1], d, s) if vals[k] is not None and vals[k + 1] is not None else None
+                if t is False:
+                    return False
+                if t is None:
+                    res = None
+            return res
+        if isinstance(e, ast.UnaryOp) and isinstance(e.op, ast.Not):
+            t = truth(e.operand, env, d, s)
+            return None if t is None else not t
+        if isinstance(e, ast.BoolOp):
+            ts = [truth(v, env, d, s) for v in e.values]
+            if isinstance(e.op, ast.And):
+                return False if False in ts else (None if None in ts else True)
+            return True if True in ts else (None if None in ts else False)
+        return None
+
+    def value(e, env, d, s):
+        """set of possible returned ints, or None"""
+        t = term(e, env)
+        if isinstance(t, tuple):
+            return {t[1]}
+        if isinstance(e, ast.IfExp):
+            tt = truth(e.test, env, d, s)
+            a, b = value(e.body, env, d, s), value(e.orelse, env, d, s)
+            if tt is True:
+                return a
+            if tt is False:
+                return b
+            return None if a is None or b is None else a | b
+        if isinstance(e, ast.BinOp) and isinstance(e.op, ast.Sub):
+            if isinstance(e.left, (ast.Compare, ast.BoolOp)) and isinstance(e.right, (ast.Compare, ast.BoolOp)):
+                a, b = truth(e.left, env, d, s), truth(e.right, env, d, s)
+                return {int(x) - int(y) for x in ([a] if a is not None else [True, False]) for y in ([b] if b is not None else [True, False])}
+        return None
+
+    class Refuse(Exception):
+        pass
+
+    def run(stmts, env, d, s, out):
+        """walk a statement list; returns True when every path through it has returned"""
+        for i, st in enumerate(stmts):
+            if isinstance(st, ast.Return):
+                v = value(st.value, env, d, s) if st.value is not None else None
+                if v is None:
+                    raise Refuse('return value `%s` not understood' % unparse(st.value) if st.value is not None else 'bare return')
+                out |= v
+                return True
+            if isinstance(st, ast.Assign) and len(st.targets) == 1 and isinstance(st.targets[0], ast.Name):
+                env = dict(env)
+                t = term(st.value, env)
+                if t is None:
+                    v = value(st.value, env, d, s)
+                    t = ('k', next(iter(v))) if v is not None and len(v) == 1 else None
+                env[st.targets[0].id] = t
+                continue
+            if isinstance(st, (ast.Assign, ast.AugAssign)) and all(isinstance(t_, ast.Attribute) for t_ in (st.targets if isinstance(st, ast.Assign) else [st.target])):
+                continue            # statistics (checked separately: only maxDiff / minDiff are stored)
+            if isinstance(st, ast.Expr) and isinstance(st.value, ast.Constant):
+                continue
+            if isinstance(st, ast.Pass):
+                continue
+            if isinstance(st, ast.If):
+                tt = truth(st.test, env, d, s)
+                rest = stmts[i + 1:]
+                done = True
+                for branch, taken in ((st.body, tt is not False), (st.orelse, tt is not True)):
+                    if taken:
+                        if not run(list(branch) + list(rest), env, d, s, out):
+                            done = False
+                return done
+            raise Refuse('statement `%s` not understood' % unparse(st).split('\n')[0])
+        return False
+
+    table = {}
+    try:
+        for d in ('lt', 'ge'):
+            for s in '<=>':
+                if d == 'ge' and s == '=':
+                    continue
+                out = set()
+                if not run(list(c.node.body), {}, d, s, out):
+                    out.add(None)
+                table[(d, s)] = out
+    except Refuse as e:
+        return None, str(e)
+    return table, None
+
+
 def r23_comparisons(ctx):
     R = 'R23'
     g = ctx.repo.cls(GUARDED)
@@ -458,33 +609,22 @@ def r23_comparisons(ctx):
                   'Guarded.%s is `%s`' % (m, unparse(rets[0].value) if rets else None))
     c = g.methods.get('__cmp__')
     need(c is not None, 'Guarded.__cmp__ missing')
-    cfg = cfg_of(c)
-    # gdiff = abs(self._value - other._value)
-    gd = [n for n in c.own_nodes() if isinstance(n, ast.Assign) and isinstance(n.targets[0], ast.Name)
-          and unparse(n.value) == 'abs(self._value - other._value)']
-    ctx.check(len(gd) == 1, R, gd[0] if gd else c.node, c, '__cmp__ measures the absolute difference of the stored integers',
-              'gdiff = abs(self._value - other._value)', 'the difference is not abs(self._value - other._value)')
-    if len(gd) != 1:
-        return
-    dn = gd[0].targets[0].id
-    rets = [n for n in c.own_nodes() if isinstance(n, ast.Return)]
-    # return 0 exactly under `gdiff < geps`
-    zero = [r for r in rets if isinstance(r.value, ast.Constant) and r.value.value == 0]
-    okz = len(zero) == 1 and isinstance(zero[0].parent, ast.If) and unparse(zero[0].parent.test) == '%s < Guarded.__geps' % dn
-    ctx.check(okz, R, zero[0] if zero else c.node, c, 'two guarded values are equal exactly when they differ by less than the tolerance',
-              'return 0 under `%s < Guarded.__geps` (strict)' % dn, 'the equality branch of __cmp__ is not `%s < geps`' % dn)
-    one = [r for r in rets if isinstance(r.value, ast.Constant) and r.value.value == 1]
-    okp = len(one) == 1 and isinstance(one[0].parent, ast.If) and unparse(one[0].parent.test) == 'self._value > other._value'
-    mone = [r for r in rets if unparse(r.value) == '-1']
-    ctx.check(okp and len(mone) == 1 and len(rets) == 3, R, one[0] if one else c.node, c,
-              'otherwise guarded values order as their stored integers do', 'return 1 if self._value > other._value else -1',
-              'the ordering branches of __cmp__ changed')
-    # order of the tests: the tolerance test precedes the ordering test
-    if okz and okp:
-        zn, on = cfg.of_stmt[zero[0]], cfg.of_stmt[one[0]]
-        ztest = cfg.of_stmt[zero[0].parent]
-        ctx.check(cfg.dominates(ztest, on), R, one[0], c, 'the tolerance test is evaluated before the ordering test',
-                  'the `gdiff < geps` test dominates `return 1`', 'ordering is decided before the tolerance test')
+    # decision table of __cmp__ over the finite abstraction it can observe: the order of the two stored integers (s) and whether
+    # their absolute difference is below the tolerance (d).  Every path of the body is walked for each feasible (s, d); tests on
+    # the statistics are unknown and both branches are taken.  This is independent of how the branches are written.
+    want = {('lt', '<'): 0, ('lt', '='): 0, ('lt', '>'): 0, ('ge', '<'): -1, ('ge', '>'): 1}
+    table, why = _cmp_table(c)
+    if table is None:
+        ctx.unrecognised(R, c.node, c, 'the three-way comparison of guarded values', why)
+    else:
+        for st_, exp in sorted(want.items()):
+            got = table.get(st_, set())
+            d_, s_ = st_
+            what = 'two guarded values are equal exactly when they differ by less than the tolerance' if exp == 0 else \
+                'otherwise guarded values order as their stored integers do'
+            ctx.check(got == {exp}, R, c.node, c, what,
+                      '|a-b| %s geps, a %s b: __cmp__ returns %d' % ('<' if d_ == 'lt' else '>=', s_, exp),
+                      '__cmp__ returns %s when |a-b| %s geps and a %s b' % (sorted(got, key=str), '<' if d_ == 'lt' else '>=', s_))
     # geps = scaleg // 2, floor 1; scaleg = 10 ** guard
     init = g.methods['initialize']
     txt = {unparse(n.targets[0]): unparse(n.value) for n in init.own_nodes() if isinstance(n, ast.Assign)}
@@ -492,9 +632,15 @@ def r23_comparisons(ctx):
     ctx.check(okg, R, init.node, init, 'the guard scale is 10 ** guard', 'cls.__scaleg = 10 ** cls.guard', 'cls.__scaleg = %s' % txt.get('cls.__scaleg'))
     geps = [n for n in init.own_nodes() if isinstance(n, ast.Assign) and unparse(n.targets[0]) == 'cls.__geps']
     vals = [unparse(n.value) for n in geps]
-    okh = 'cls.__scaleg // 2' in vals and set(vals) <= {'cls.__scaleg // 2', '1'}
-    floor1 = [n for n in geps if unparse(n.value) == '1']
-    okf = bool(floor1) and all(isinstance(n.parent, ast.If) and unparse(n.parent.test) == 'cls.__geps == 0' for n in floor1)
+    half = ('cls.__scaleg // 2', '10 ** cls.guard // 2')
+    one_stmt = ('%s or 1', 'max(%s, 1)', 'max(1, %s)', '%s if %s else 1', '%s if %s > 0 else 1', '%s if %s >= 1 else 1')
+    if len(vals) == 1 and any(vals[0] == f.replace('%s', h) for f in one_stmt for h in half):
+        okh = okf = True            # half a unit floored at one, in a single expression
+    else:
+        okh = any(h in vals for h in half) and set(vals) <= set(half) | {'1'}
+        floor1 = [n for n in geps if unparse(n.value) == '1']
+        okf = bool(floor1) and all(isinstance(n.parent, ast.If) and n in n.parent.body and unparse(n.parent.test) in
+                                   ('cls.__geps == 0', 'cls.__geps < 1', 'cls.__geps <= 0') for n in floor1)
     ctx.check(okh and okf, R, geps[0] if geps else init.node, init,
               'the tolerance is half a unit of the declared precision (10^guard // 2), at least one stored unit',
               'cls.__geps = cls.__scaleg // 2; if cls.__geps == 0: cls.__geps = 1', 'tolerance definition changed: %s' % vals)
@@ -530,6 +676,25 @@ def r23_comparisons(ctx):
 # ---------------------------------------------------------------------------
 # R24 guard-0 sibling equivalence
 # ---------------------------------------------------------------------------
+
+def _guard_polarity(test):
+    """'zero' when the test holds exactly for guard == 0, 'nonzero' when exactly for guard > 0 (guard is a non-negative int)"""
+    def is_guard(e):
+        return isinstance(e, ast.Attribute) and e.attr == 'guard' and isinstance(e.value, ast.Name)
+    if is_guard(test):
+        return 'nonzero'
+    if isinstance(test, ast.UnaryOp) and isinstance(test.op, ast.Not):
+        p = _guard_polarity(test.operand)
+        return {'zero': 'nonzero', 'nonzero': 'zero'}.get(p)
+    if isinstance(test, ast.Compare) and len(test.ops) == 1 and is_guard(test.left) and isinstance(test.comparators[0], ast.Constant) \
+            and isinstance(test.comparators[0].value, int):
+        k, op = test.comparators[0].value, type(test.ops[0])
+        if (op, k) in ((ast.Eq, 0), (ast.LtE, 0), (ast.Lt, 1)):
+            return 'zero'
+        if (op, k) in ((ast.NotEq, 0), (ast.Gt, 0), (ast.GtE, 1)):
+            return 'nonzero'
+    return None
+
 
 def r24_guard0_equivalence(ctx):
     R = 'R24'
@@ -567,10 +732,12 @@ def r24_guard0_equivalence(ctx):
     ctx.floor(R, 'sibling operations compared', n, 10)
     # flags: guard == 0 branch of initialize sets exact = quasi_exact = False and epsilon = 1 ulp
     init = g.methods['initialize']
-    ifs = [s for s in init.node.body if isinstance(s, ast.If) and unparse(s.test) == 'cls.guard == 0']
-    need(len(ifs) == 1, 'R24: `if cls.guard == 0:` not found in Guarded.initialize')
-    body = [unparse(s) for s in ifs[0].body]
-    other = [unparse(s) for s in ifs[0].orelse]
+    ifs = [s for s in init.own_nodes() if isinstance(s, ast.If) and _guard_polarity(s.test) is not None
+           and any(isinstance(x, ast.Attribute) and isinstance(x.ctx, ast.Store) and x.attr in ('exact', 'quasi_exact') for y in s.body + s.orelse for x in ast.walk(y))]
+    need(len(ifs) == 1, 'R24: no single `if cls.guard == 0:` (or equivalent) setting the exactness flags found in Guarded.initialize')
+    zero_first = _guard_polarity(ifs[0].test) == 'zero'
+    body = [unparse(s) for s in (ifs[0].body if zero_first else ifs[0].orelse)]
+    other = [unparse(s) for s in (ifs[0].orelse if zero_first else ifs[0].body)]
     want = {'cls.quasi_exact = False', 'cls.exact = False', 'cls.epsilon = cls(0)', 'cls.epsilon._value = 1'}
     contra = {'cls.exact = True', 'cls.quasi_exact = True'}
     ctx.check(want <= set(body) and not (contra & set(body)), R, ifs[0], init, 'with guard == 0 Guarded carries the flags of Fixed (inexact, epsilon = 1 unit)',
@@ -950,7 +1117,7 @@ def r50_value_immutability(ctx):
         for n in ast.walk(m.tree):
             if isinstance(n, ast.Attribute) and n.attr == '_value' and isinstance(n.ctx, ast.Load):
                 ctx.note(R, '%s reads ._value directly (%s)' % (m.name, ctx.repo.loc(n)))
-    ctx.floor(R, '_value stores in Fixed/Guarded', n_st, 30)
+    ctx.floor(R, '_value stores in Fixed/Guarded', n_st, 20)
     # Rational: Fraction is immutable; Rational defines __slots__? no instance attributes are assigned
     rat = repo.cls(RATIONAL)
     for f in rat.methods.values():
